@@ -505,7 +505,7 @@ Proof.
   { apply stops_render_dec_app. intros d Hd. unfold not_digit. rewrite Hd. reflexivity. }
   rewrite (drop_while_stops_id _ _ Hs). cbv zeta.
   rewrite match_nonempty by apply render_app_nonempty.
-  rewrite (take_while_app is_digit _ _ (render_dec_digits port) (ext_stops_digit sub chan cls Hc)).
+  rewrite take_while_app; [|apply render_dec_digits|apply ext_stops_digit; assumption].
   rewrite render_dec_val.
   rewrite !find_after_skip by (apply digits_all; intros x Hx; unfold not_char; rewrite ?(digit_not_dot x Hx), ?(digit_not_colon x Hx); reflexivity).
   rewrite ext_find_dot, ext_find_colon by assumption.
@@ -537,18 +537,17 @@ Lemma parse_long_ok pre sl card port sub chan cls :
   Ok (mk_intf (strip pre) (Some [c_slash]) (Some sl) card port sub chan cls).
 Proof.
   intros Hc. unfold parse_long.
-  set (e := ext_of sub chan cls).
-  assert (He1 : stops is_digit e) by (apply ext_stops_digit; assumption).
-  assert (He2 : stops is_sep e) by (apply ext_stops_sep; assumption).
-  (* scanning of the numbers *)
   assert (Hfa : forall m, (forall d, is_digit d = true -> N.eqb d m = false) -> N.eqb c_slash m = false ->
-                find_after m (number_long sl card port ++ e) = find_after m e).
+                find_after m (number_long sl card port ++ ext_of sub chan cls) = find_after m (ext_of sub chan cls)).
   { intros m H1 H2. apply find_after_skip. apply number_long_all.
     - intros d Hd. unfold not_char. rewrite (H1 d Hd). reflexivity.
     - unfold not_char. rewrite H2. reflexivity. }
   rewrite (Hfa c_dot digit_not_dot eq_refl), (Hfa c_colon digit_not_colon eq_refl).
-  unfold e at 3 4. rewrite ext_find_dot, ext_find_colon by assumption.
+  rewrite ext_find_dot, ext_find_colon by assumption.
   rewrite (ext_find_class sub chan cls Hc _ (number_long_ends sl card port)).
+  set (e := ext_of sub chan cls).
+  assert (He1 : stops is_digit e) by (apply ext_stops_digit; assumption).
+  assert (He2 : stops is_sep e) by (apply ext_stops_sep; assumption).
   unfold number_long. rewrite <- !app_assoc. cbn [app].
   rewrite take_while_app by (try apply render_dec_digits; reflexivity).
   rewrite drop_while_app by (try apply render_dec_digits; reflexivity).
@@ -570,4 +569,1233 @@ Proof.
     unfold opt_digits.
     destruct (render_dec port) as [|p0 pr] eqn:Ep; [exfalso; apply (render_dec_nonempty port Ep)|]. rewrite <- Ep.
     rewrite !render_dec_val. unfold update_state. simpl. rewrite class_restore by assumption. reflexivity.
+Qed.
+
+(* ================================================================== parse (render c) = c *)
+Lemma forallb_false_mid {A} (p : A -> bool) a x b : p x = false -> forallb p (a ++ x :: b) = false.
+Proof. intros H. rewrite forallb_app'. simpl. rewrite H. apply andb_false_r. Qed.
+
+Lemma existsb_false_of_forallb {A} (p q : A -> bool) l :
+  (forall x, p x = true -> q x = false) -> forallb p l = true -> existsb q l = false.
+Proof.
+  intros H. induction l as [|c r IH]; simpl; [reflexivity|]. intros Hl. apply andb_true_iff in Hl.
+  destruct Hl as [H1 H2]. rewrite (H c H1), (IH H2). reflexivity.
+Qed.
+
+(* the tail (number and everything after it) of a canonical tuple *)
+Lemma tail_cases c : shape_ok c ->
+  (i_slot c = None /\ i_card c = None /\ i_sep c = None /\
+   tail_str c = render_dec (i_port c) ++ ext_of (i_sub c) (i_chan c) (i_class c)) \/
+  (exists sl, i_slot c = Some sl /\ i_sep c = Some [c_slash] /\
+   tail_str c = number_long sl (i_card c) (i_port c) ++ ext_of (i_sub c) (i_chan c) (i_class c)).
+Proof.
+  intros [[H1 [H2 H3]]|[[sl H1] H2]]; rewrite tail_str_ext; unfold number_str.
+  - left. rewrite H1. auto.
+  - right. exists sl. rewrite H1. repeat split; try assumption. f_equal. unfold number_long, sep_str. rewrite H2.
+    destruct (i_card c) as [cd|]; simpl; rewrite <- ?app_assoc; reflexivity.
+Qed.
+
+Lemma tail_starts_digit c : shape_ok c -> exists d r, tail_str c = d :: r /\ is_digit d = true.
+Proof.
+  intros H. destruct (tail_cases c H) as [[_ [_ [_ E]]]|[sl [_ [_ E]]]]; rewrite E.
+  - destruct (render_dec_cons (i_port c)) as [d [r [E1 Hd]]]. rewrite E1. simpl. eauto.
+  - unfold number_long. destruct (render_dec_cons sl) as [d [r [E1 Hd]]]. rewrite E1. simpl. eauto.
+Qed.
+
+Lemma tail_last_not_space c : class_ok (i_class c) -> shape_ok c -> exists y d, tail_str c = y ++ [d] /\ is_space d = false.
+Proof.
+  intros Hc Hs.
+  assert (Hn : ends_digit (number_str c ++ match i_sub c with Some n => c_dot :: render_dec n | None => [] end
+                                        ++ match i_chan c with Some n => c_colon :: render_dec n | None => [] end)).
+  { assert (H0 : ends_digit (number_str c)).
+    { destruct (tail_cases c Hs) as [[H1 [H2 [H3 _]]]|[sl [H1 [H2 _]]]]; unfold number_str; rewrite H1.
+      - apply render_dec_ends.
+      - destruct (i_card c); repeat (apply ends_digit_app); apply render_dec_ends. }
+    rewrite app_assoc. destruct (i_chan c) as [n|].
+    - apply ends_digit_app. change (c_colon :: render_dec n) with ([c_colon] ++ render_dec n). apply ends_digit_app, render_dec_ends.
+    - rewrite app_nil_r. destruct (i_sub c) as [n|]; [|rewrite app_nil_r; assumption].
+      apply ends_digit_app. change (c_dot :: render_dec n) with ([c_dot] ++ render_dec n). apply ends_digit_app, render_dec_ends. }
+  unfold tail_str. destruct (i_class c) as [w|].
+  - destruct Hc as [Hne Hw]. destruct (exists_last Hne) as [w' [d E]]. subst w.
+    exists (number_str c ++ match i_sub c with Some n => c_dot :: render_dec n | None => [] end
+                       ++ match i_chan c with Some n => c_colon :: render_dec n | None => [] end ++ c_space :: w'), d.
+    split; [rewrite <- !app_assoc; reflexivity|].
+    rewrite forallb_app' in Hw. apply andb_true_iff in Hw. destruct Hw as [_ Hw]. simpl in Hw. rewrite andb_true_r in Hw.
+    apply classw_not_space. assumption.
+  - rewrite !app_nil_r. destruct Hn as [y [d [E Hd]]]. exists y, d. split; [|apply digit_not_space; assumption].
+    rewrite <- E. rewrite <- ?app_assoc. reflexivity.
+Qed.
+
+Lemma tail_all (P : char -> bool) c : class_ok (i_class c) -> shape_ok c ->
+  (forall d, is_digit d = true -> P d = true) -> (forall x, in_classw x = true -> P x = true) ->
+  P c_dot = true -> P c_colon = true -> P c_space = true -> (i_slot c <> None -> P c_slash = true) ->
+  forallb P (tail_str c) = true.
+Proof.
+  intros Hc Hs Hd Hw H1 H2 H3 H4.
+  destruct (tail_cases c Hs) as [[_ [_ [_ E]]]|[sl [E1 [_ E]]]]; rewrite E, forallb_app'; apply andb_true_iff; split.
+  - apply digits_all; assumption.
+  - apply ext_all; assumption.
+  - apply number_long_all; [assumption|]. apply H4. rewrite E1. discriminate.
+  - apply ext_all; assumption.
+Qed.
+
+(* name_blank: the rendering, with any run of whitespace after a non-empty prefix, parses back to c *)
+Lemma name_blank c ws :
+  canon c -> forallb is_space ws = true -> (ws = [] \/ i_prefix c <> []) ->
+  parse_intf (i_prefix c ++ ws ++ tail_str c) = Ok c.
+Proof.
+  intros [Hp [Hpe [Hc Hs]]] Hws Hor.
+  set (p := i_prefix c) in *. set (t := tail_str c).
+  destruct (tail_starts_digit c Hs) as [d0 [t0 [Et Hd0]]]. fold t in Et.
+  destruct (tail_last_not_space c Hc Hs) as [ty [td [Ety Htd]]]. fold t in Ety.
+  assert (Hpw : forallb in_prefix (p ++ ws) = true).
+  { rewrite forallb_app', Hp. simpl. apply (forallb_impl is_space); [apply space_in_prefix|assumption]. }
+  assert (Hlong : forallb in_long (p ++ ws ++ t) = true).
+  { rewrite app_assoc, forallb_app'. apply andb_true_iff. split.
+    - apply (forallb_impl in_prefix); [|assumption]. intros x Hx. apply short_in_long, prefix_in_short. assumption.
+    - apply tail_all; try assumption; try reflexivity.
+      + intros x Hx. apply short_in_long, digit_in_short. assumption.
+      + intros x Hx. apply short_in_long, classw_in_short. assumption. }
+  unfold parse_intf.
+  rewrite (existsb_false_of_forallb in_long (N.eqb c_comma)); [|intros x Hx; rewrite N.eqb_sym; apply long_not_comma; assumption|assumption].
+  (* strip is the identity *)
+  assert (Hstrip : strip (p ++ ws ++ t) = p ++ ws ++ t).
+  { apply strip_by_id. split.
+    - destruct p as [|c0 pr] eqn:Ep.
+      + destruct Hor as [->|H]; [|congruence]. simpl. rewrite Et. simpl. apply digit_not_space. assumption.
+      + simpl. destruct Hpe as [H _]. exact H.
+    - rewrite Ety, !rev_app_distr. simpl. exact Htd. }
+  rewrite Hstrip.
+  rewrite match_nonempty by (rewrite Et; destruct p; destruct ws; discriminate).
+  assert (Htk : take_while in_prefix (p ++ ws ++ t) = p ++ ws).
+  { rewrite app_assoc. apply take_while_app; [assumption|]. rewrite Et. simpl. apply digit_not_prefix. assumption. }
+  assert (Hdr : drop_while in_prefix (p ++ ws ++ t) = t).
+  { rewrite app_assoc. apply drop_while_app; [assumption|]. rewrite Et. simpl. apply digit_not_prefix. assumption. }
+  assert (Hsp : strip (p ++ ws) = p) by (apply strip_trail; assumption).
+  assert (Hpp : strip p = p) by (apply strip_by_id; assumption).
+  destruct (tail_cases c Hs) as [[H1 [H2 [H3 E]]]|[sl [H1 [H2 E]]]]; fold t in E.
+  - (* short *)
+    assert (Hshort : forallb in_short (p ++ ws ++ t) = true).
+    { rewrite app_assoc, forallb_app'. apply andb_true_iff. split.
+      - apply (forallb_impl in_prefix); [apply prefix_in_short|assumption].
+      - apply tail_all; try assumption; try reflexivity.
+        + apply digit_in_short.
+        + apply classw_in_short.
+        + intros H. congruence. }
+    rewrite Hshort, Htk, Hdr. rewrite Et. rewrite <- Et. rewrite E.
+    rewrite parse_short_ok by assumption. rewrite Hsp, Hpp.
+    destruct c; simpl in *; subst; reflexivity.
+  - (* long *)
+    assert (Hshort : forallb in_short (p ++ ws ++ t) = false).
+    { rewrite E. unfold number_long. rewrite !app_assoc. rewrite <- (app_assoc _ (c_slash :: _) _). cbn [app].
+      apply forallb_false_mid. reflexivity. }
+    rewrite Hshort, Hlong, Htk, Hdr, E.
+    rewrite parse_long_ok by assumption. rewrite Hsp.
+    destruct c; simpl in *; subst; reflexivity.
+Qed.
+
+Lemma name_roundtrip c : canon c -> parse_intf (render c) = Ok c.
+Proof.
+  intros H. unfold render. change (tail_str c) with ([] ++ tail_str c). apply name_blank; [assumption|reflexivity|left; reflexivity].
+Qed.
+
+(* ================================================================== every successful parse is canonical *)
+Lemma class_ok_find s : class_ok (option_map strip (find_class s)).
+Proof.
+  destruct (find_class s) as [r|] eqn:E; simpl; [|exact I].
+  destruct (find_class_shape s r E) as [ws [w [-> [H1 [H2 H3]]]]]. rewrite strip_class by assumption. auto.
+Qed.
+
+Lemma update_state_canon d c :
+  forallb in_prefix (r_prefix d) = true ->
+  (r_slot d = None -> r_sep d = None) -> (r_slot d <> None -> r_sep d = Some [c_slash]) ->
+  class_ok (option_map strip (r_class d)) ->
+  update_state d = Ok c -> canon c.
+Proof.
+  intros Hp H1 H2 Hc. unfold update_state.
+  destruct (r_slot d) as [sl|] eqn:Es; destruct (r_port d) as [p|] eqn:Ep; try discriminate; intros H; inversion H; subst c; clear H;
+    (split; [apply strip_by_forallb; assumption|]); (split; [apply strip_by_no_edge|]); (split; [assumption|]).
+  - right. simpl. split; [eauto|]. apply H2. discriminate.
+  - left. simpl. auto.
+Qed.
+
+Lemma parse_short_canon pre P c : forallb in_prefix pre = true -> parse_short pre P = Ok c -> canon c.
+Proof.
+  intros Hp. unfold parse_short. destruct (drop_while not_digit P) as [|d0 dr]; [discriminate|].
+  apply update_state_canon; simpl.
+  - apply strip_by_forallb. assumption.
+  - reflexivity.
+  - congruence.
+  - apply class_ok_find.
+Qed.
+
+Lemma opt_sep_some s sc r : opt_sep s = (Some sc, r) -> s = sc :: r /\ is_sep sc = true.
+Proof.
+  destruct s as [|c0 s']; simpl; [discriminate|]. destruct (is_sep c0) eqn:E; intros H; inversion H; subst. auto.
+Qed.
+
+Lemma forallb_drop_while (P p : char -> bool) s : forallb P s = true -> forallb P (drop_while p s) = true.
+Proof. intros H. rewrite <- (take_drop p s), forallb_app' in H. apply andb_true_iff in H. tauto. Qed.
+
+Lemma parse_long_canon pre L c :
+  forallb in_prefix pre = true -> forallb in_long L = true -> parse_long pre L = Ok c -> canon c.
+Proof.
+  intros Hp HL. unfold parse_long.
+  destruct (take_while is_digit L) as [|s0 sr]; [discriminate|].
+  destruct (opt_sep (drop_while is_digit L)) as [sep1 r2] eqn:E1.
+  destruct (opt_sep (drop_while is_digit r2)) as [sep2 r4] eqn:E2.
+  set (card0 := opt_digits (take_while is_digit r2)). set (port0 := opt_digits (take_while is_digit r4)).
+  destruct (match card0, port0 with Some c1, None => (None, Some c1) | _, _ => (card0, port0) end) as [card port] eqn:E3.
+  destruct sep1 as [sc|]; [|discriminate].
+  apply opt_sep_some in E1. destruct E1 as [E1 Hsep].
+  assert (Hsc : sc = c_slash).
+  { apply sep_in_long_is_slash; [|assumption].
+    pose proof (forallb_drop_while in_long is_digit L HL) as H. rewrite E1 in H. simpl in H. apply andb_true_iff in H. tauto. }
+  subst sc. apply update_state_canon; simpl.
+  - assumption.
+  - discriminate.
+  - reflexivity.
+  - apply class_ok_find.
+Qed.
+
+Lemma forallb_removelast {A} (P : A -> bool) l : forallb P l = true -> forallb P (removelast l) = true.
+Proof.
+  induction l as [|c r IH]; simpl; [reflexivity|]. intros H. apply andb_true_iff in H. destruct H as [H1 H2].
+  destruct r; [reflexivity|]. simpl. rewrite H1. apply IH. assumption.
+Qed.
+
+Lemma parse_canon s c : parse_intf s = Ok c -> canon c.
+Proof.
+  unfold parse_intf. destruct (existsb (N.eqb c_comma) s); [discriminate|].
+  destruct (strip s) as [|s0 sr] eqn:Es; [discriminate|]. rewrite <- Es. set (t := strip s).
+  destruct (forallb in_short t) eqn:Hsh.
+  - destruct (drop_while in_prefix t) as [|r0 rr] eqn:Ed.
+    + apply parse_short_canon. apply forallb_removelast.
+      rewrite <- (take_drop in_prefix t), Ed, app_nil_r. apply take_while_all.
+    + apply parse_short_canon. apply take_while_all.
+  - destruct (forallb in_long t) eqn:Hlo; [|discriminate].
+    apply parse_long_canon; [apply take_while_all|apply forallb_drop_while; assumption].
+Qed.
+
+(* render_parse_canonical *)
+Lemma render_parse_canonical s c :
+  parse_intf s = Ok c -> canon c /\ parse_intf (render c) = Ok c.
+Proof. intros H. pose proof (parse_canon s c H) as Hc. split; [assumption|apply name_roundtrip; assumption]. Qed.
+
+Lemma render_fixed_point s c c' :
+  parse_intf s = Ok c -> parse_intf (render c) = Ok c' -> c' = c /\ render c' = render c.
+Proof.
+  intros H H'. destruct (render_parse_canonical s c H) as [_ E]. rewrite E in H'. inversion H'. auto.
+Qed.
+
+(* ================================================================== ordering, equality, hashing *)
+Fixpoint lex_ltb (a b : list N) : bool :=
+  match a, b with
+  | [], [] => false
+  | [], _ :: _ => true
+  | _ :: _, [] => false
+  | x :: r, y :: s => if N.eqb x y then lex_ltb r s else N.ltb x y
+  end.
+
+Lemma str_ltb_lex a : forall b, str_ltb a b = lex_ltb a b.
+Proof.
+  induction a as [|x r IH]; intros [|y s]; simpl; try reflexivity.
+  destruct (N.ltb x y) eqn:E1; destruct (N.eqb x y) eqn:E2; try apply IH; try reflexivity.
+  apply N.ltb_lt in E1. apply N.eqb_eq in E2. lia.
+Qed.
+
+Lemma lex_irrefl a : lex_ltb a a = false.
+Proof. induction a as [|x r IH]; simpl; [reflexivity|]. rewrite N.eqb_refl. assumption. Qed.
+
+Lemma lex_trans a : forall b c, lex_ltb a b = true -> lex_ltb b c = true -> lex_ltb a c = true.
+Proof.
+  induction a as [|x r IH]; intros [|y s] [|z t]; simpl; try discriminate; try reflexivity.
+  destruct (N.eqb x y) eqn:E1; destruct (N.eqb y z) eqn:E2; destruct (N.eqb x z) eqn:E3;
+    rewrite ?N.eqb_eq, ?N.eqb_neq in *; intros H1 H2; rewrite ?N.ltb_lt in *; subst; try lia; try assumption;
+    try congruence; try (eapply IH; eassumption).
+Qed.
+
+Lemma lex_total a : forall b, lex_ltb a b = false -> lex_ltb b a = false -> a = b.
+Proof.
+  induction a as [|x r IH]; intros [|y s]; simpl; try discriminate; try reflexivity.
+  rewrite (N.eqb_sym y x). destruct (N.eqb x y) eqn:E.
+  - apply N.eqb_eq in E. subst. intros H1 H2. f_equal. apply IH; assumption.
+  - apply N.eqb_neq in E. rewrite !N.ltb_ge. intros. lia.
+Qed.
+
+Lemma lex_asym a b : lex_ltb a b = true -> lex_ltb b a = false.
+Proof.
+  intros H. destruct (lex_ltb b a) eqn:E; [|reflexivity]. pose proof (lex_trans _ _ _ H E) as H1. rewrite lex_irrefl in H1. discriminate.
+Qed.
+
+Lemma lex_app n1 : forall n2 c1 c2, length n1 = length n2 ->
+  lex_ltb (n1 ++ c1) (n2 ++ c2) = lex_ltb n1 n2 || (list_eqb N.eqb n1 n2 && lex_ltb c1 c2).
+Proof.
+  induction n1 as [|x r IH]; intros [|y s] c1 c2 Hl; simpl in *; try discriminate; [reflexivity|].
+  destruct (N.eqb x y); [apply IH; lia|]. simpl. rewrite orb_false_r. reflexivity.
+Qed.
+
+Definition olist (o : option N) : list N := match o with Some n => [n] | None => [] end.
+Definition nums (c : intf) : list N :=
+  olist (i_slot c) ++ olist (i_card c) ++ [i_port c] ++ olist (i_sub c) ++ olist (i_chan c).
+Definition isS {A} (o : option A) : bool := match o with Some _ => true | None => false end.
+Definition same_shape (a b : intf) : Prop :=
+  isS (i_slot a) = isS (i_slot b) /\ isS (i_card a) = isS (i_card b) /\ isS (i_sub a) = isS (i_sub b) /\
+  isS (i_chan a) = isS (i_chan b) /\ isS (i_class a) = isS (i_class b).
+Definition class_ltb (a b : option str) : bool :=
+  match a, b with Some x, Some y => str_ltb x y | _, _ => false end.
+(* the order of the property: numeric components first (numerically, position by position), then the class word *)
+Definition key_ltb (a b : intf) : bool :=
+  lex_ltb (nums a) (nums b) || (list_eqb N.eqb (nums a) (nums b) && class_ltb (i_class a) (i_class b)).
+
+Lemma str_ltb_irrefl x : str_ltb x x = false.
+Proof. rewrite str_ltb_lex. apply lex_irrefl. Qed.
+
+Lemma order_numeric a b : same_shape a b -> intf_lt a b = Ok (key_ltb a b).
+Proof.
+  destruct a as [pa sa sla cda poa sba cha cla], b as [pb sb slb cdb pob sbb chb clb].
+  unfold same_shape, intf_lt, sort_list, key_ltb, nums. simpl.
+  intros [H1 [H2 [H3 [H4 H5]]]].
+  destruct sla, slb; try discriminate; destruct cda, cdb; try discriminate; destruct sba, sbb; try discriminate;
+    destruct cha, chb; try discriminate; destruct cla as [wa|], clb as [wb|]; try discriminate; simpl;
+    repeat match goal with |- context [N.eqb ?x ?y] => destruct (N.eqb x y); simpl end;
+    rewrite ?orb_false_r; try reflexivity;
+    destruct (str_eqb wa wb) eqn:E; try reflexivity; apply str_eqb_eq in E; subst; rewrite str_ltb_irrefl; reflexivity.
+Qed.
+
+Definition key (c : intf) : list N := nums c ++ match i_class c with Some w => w | None => [] end.
+
+Lemma nums_length a b : same_shape a b -> length (nums a) = length (nums b).
+Proof.
+  destruct a as [pa sa sla cda poa sba cha cla], b as [pb sb slb cdb pob sbb chb clb]. unfold same_shape, nums. simpl.
+  intros [H1 [H2 [H3 [H4 H5]]]].
+  destruct sla, slb; try discriminate; destruct cda, cdb; try discriminate; destruct sba, sbb; try discriminate;
+    destruct cha, chb; try discriminate; reflexivity.
+Qed.
+
+Lemma key_ltb_lex a b : same_shape a b -> key_ltb a b = lex_ltb (key a) (key b).
+Proof.
+  intros H. unfold key. rewrite lex_app by (apply nums_length; assumption). unfold key_ltb. f_equal. f_equal.
+  destruct H as [_ [_ [_ [_ H]]]]. unfold class_ltb. destruct (i_class a) as [x|], (i_class b) as [y|]; try discriminate.
+  - apply str_ltb_lex.
+  - reflexivity.
+Qed.
+
+Lemma same_shape_refl a : same_shape a a.
+Proof. unfold same_shape. auto. Qed.
+Lemma same_shape_sym a b : same_shape a b -> same_shape b a.
+Proof. unfold same_shape. intuition. Qed.
+Lemma same_shape_trans a b c : same_shape a b -> same_shape b c -> same_shape a c.
+Proof. unfold same_shape. intros [? [? [? [? ?]]]] [? [? [? [? ?]]]]. repeat split; congruence. Qed.
+
+Lemma lt_irrefl a : intf_lt a a = Ok false.
+Proof. rewrite order_numeric by apply same_shape_refl. rewrite key_ltb_lex by apply same_shape_refl. rewrite lex_irrefl. reflexivity. Qed.
+
+Lemma lt_trans a b c : same_shape a b -> same_shape b c ->
+  intf_lt a b = Ok true -> intf_lt b c = Ok true -> intf_lt a c = Ok true.
+Proof.
+  intros S1 S2. pose proof (same_shape_trans _ _ _ S1 S2) as S3.
+  rewrite !order_numeric, !key_ltb_lex by assumption. intros H1 H2. injection H1 as H1. injection H2 as H2.
+  f_equal. eapply lex_trans; eassumption.
+Qed.
+
+Lemma lt_asym a b : same_shape a b -> intf_lt a b = Ok true -> intf_lt b a = Ok false.
+Proof.
+  intros S. pose proof (same_shape_sym _ _ S) as S'. rewrite !order_numeric, !key_ltb_lex by assumption. intros H. injection H as H.
+  f_equal. apply lex_asym. assumption.
+Qed.
+
+Lemma gt_is_flipped_lt a b : intf_gt a b = intf_lt b a.
+Proof. reflexivity. Qed.
+
+(* equality *)
+Lemma item_eqb_eq x y : item_eqb x y = true <-> x = y.
+Proof.
+  destruct x, y; simpl; split; intros H; try discriminate; try reflexivity.
+  - apply N.eqb_eq in H. subst. reflexivity.
+  - inversion H. apply N.eqb_refl.
+  - apply str_eqb_eq in H. subst. reflexivity.
+  - inversion H. apply str_eqb_refl.
+Qed.
+
+Lemma list_eqb_item a : forall b, list_eqb item_eqb a b = true <-> a = b.
+Proof.
+  induction a as [|x r IH]; intros [|y s]; simpl; split; intros H; try discriminate; try reflexivity.
+  - apply andb_true_iff in H. destruct H as [H1 H2]. apply item_eqb_eq in H1. apply IH in H2. subst. reflexivity.
+  - inversion H; subst. apply andb_true_iff. split; [apply item_eqb_eq; reflexivity|apply IH; reflexivity].
+Qed.
+
+Lemma intf_eqb_spec a b :
+  intf_eqb a b = true <->
+  i_prefix a = i_prefix b /\ i_slot a = i_slot b /\ i_card a = i_card b /\ i_port a = i_port b /\
+  i_sub a = i_sub b /\ i_chan a = i_chan b /\ i_class a = i_class b.
+Proof.
+  unfold intf_eqb. rewrite andb_true_iff, str_eqb_eq, list_eqb_item. unfold sort_list.
+  destruct a as [pa sa sla cda poa sba cha cla], b as [pb sb slb cdb pob sbb chb clb]. simpl. split.
+  - intros [H1 H2]. inversion H2.
+    destruct sla, slb; try discriminate; destruct cda, cdb; try discriminate; destruct sba, sbb; try discriminate;
+      destruct cha, chb; try discriminate; destruct cla, clb; try discriminate; simpl in *;
+      repeat match goal with H : IInt _ = IInt _ |- _ => inversion H; clear H | H : IStr _ = IStr _ |- _ => inversion H; clear H end;
+      subst; repeat split; reflexivity.
+  - intros [H1 [H2 [H3 [H4 [H5 [H6 H7]]]]]]. subst. auto.
+Qed.
+
+Lemma list_lt_refl l : list_lt l l = Ok false.
+Proof. induction l as [|x r IH]; simpl; [reflexivity|]. rewrite (proj2 (item_eqb_eq x x) eq_refl). assumption. Qed.
+
+Lemma eq_sort_list a b : intf_eqb a b = true -> sort_list a = sort_list b.
+Proof.
+  rewrite intf_eqb_spec. intros [_ [H2 [H3 [H4 [H5 [H6 H7]]]]]]. unfold sort_list. congruence.
+Qed.
+
+(* order_eq_hash_compat *)
+Lemma eq_hash a b : intf_eqb a b = true -> intf_hash a = intf_hash b.
+Proof. rewrite intf_eqb_spec. intros [_ [H2 [H3 [H4 [H5 [H6 H7]]]]]]. unfold intf_hash. congruence. Qed.
+
+Lemma eq_not_lt a b : intf_eqb a b = true -> intf_lt a b = Ok false /\ intf_gt a b = Ok false.
+Proof.
+  intros H. apply eq_sort_list in H. unfold intf_gt, intf_lt. rewrite H. split; apply list_lt_refl.
+Qed.
+
+Lemma intf_eqb_refl a : intf_eqb a a = true.
+Proof. apply intf_eqb_spec. repeat split; reflexivity. Qed.
+
+Lemma intf_eqb_sym a b : intf_eqb a b = intf_eqb b a.
+Proof.
+  destruct (intf_eqb a b) eqn:E1; destruct (intf_eqb b a) eqn:E2; try reflexivity.
+  - rewrite intf_eqb_spec in E1. assert (intf_eqb b a = true) by (apply intf_eqb_spec; intuition). congruence.
+  - rewrite intf_eqb_spec in E2. assert (intf_eqb a b = true) by (apply intf_eqb_spec; intuition). congruence.
+Qed.
+
+Lemma key_eq_fields a b : same_shape a b -> key a = key b ->
+  i_slot a = i_slot b /\ i_card a = i_card b /\ i_port a = i_port b /\ i_sub a = i_sub b /\ i_chan a = i_chan b /\ i_class a = i_class b.
+Proof.
+  intros S E. pose proof (nums_length a b S) as Hl. unfold key in E.
+  assert (En : nums a = nums b /\ match i_class a with Some w => w | None => [] end = match i_class b with Some w => w | None => [] end).
+  { revert Hl E. generalize (nums a) (nums b). induction l as [|x r IH]; intros [|y s] Hl E; simpl in *; try discriminate; [auto|].
+    inversion E. destruct (IH s) as [K1 K2]; [lia|assumption|]. subst. auto. }
+  destruct En as [En Ec]. clear E Hl.
+  destruct a as [pa sa sla cda poa sba cha cla], b as [pb sb slb cdb pob sbb chb clb]. unfold same_shape, nums in *. simpl in *.
+  destruct S as [H1 [H2 [H3 [H4 H5]]]].
+  destruct sla, slb; try discriminate; destruct cda, cdb; try discriminate; destruct sba, sbb; try discriminate;
+    destruct cha, chb; try discriminate; destruct cla, clb; try discriminate; simpl in *; inversion En; subst; repeat split; reflexivity.
+Qed.
+
+(* exactly one of  a < b,  a == b,  b < a  for interfaces of one shape and prefix *)
+Lemma trichotomy a b : same_shape a b -> i_prefix a = i_prefix b ->
+  (intf_lt a b = Ok true /\ intf_eqb a b = false /\ intf_lt b a = Ok false) \/
+  (intf_lt a b = Ok false /\ intf_eqb a b = true /\ intf_lt b a = Ok false) \/
+  (intf_lt a b = Ok false /\ intf_eqb a b = false /\ intf_lt b a = Ok true).
+Proof.
+  intros S Hp. pose proof (same_shape_sym _ _ S) as S'.
+  rewrite !order_numeric, !key_ltb_lex by assumption.
+  destruct (lex_ltb (key a) (key b)) eqn:E1; destruct (lex_ltb (key b) (key a)) eqn:E2.
+  - rewrite (lex_asym _ _ E1) in E2. discriminate.
+  - left. repeat split. destruct (intf_eqb a b) eqn:E; [|reflexivity].
+    destruct (eq_not_lt _ _ E) as [H _]. rewrite order_numeric, key_ltb_lex, E1 in H by assumption. discriminate.
+  - right. right. repeat split. destruct (intf_eqb a b) eqn:E; [|reflexivity].
+    destruct (eq_not_lt _ _ E) as [_ H]. change (intf_lt b a = Ok false) in H. rewrite order_numeric, key_ltb_lex, E2 in H by assumption. discriminate.
+  - right. left. repeat split. apply intf_eqb_spec. pose proof (lex_total _ _ E1 E2) as Ek.
+    destruct (key_eq_fields a b S Ek) as [? [? [? [? [? ?]]]]]. repeat split; assumption.
+Qed.
+
+(* mixed shapes are not ordered: the comparison raises (TypeError) as soon as the first differing position is not int/int or str/str *)
+Lemma lt_raises_example :
+  exists a b, parse_intf [69; 116; 104; 49] = Ok a /\ parse_intf [69; 116; 104; 49; 47; 50] = Ok b /\ intf_lt a b = Raise E_TypeError.
+Proof. eexists. eexists. split; [vm_compute; reflexivity|]. split; [vm_compute; reflexivity|]. vm_compute. reflexivity. Qed.
+
+(* Eth1/2 sorts before Eth1/10 although the text "Eth1/10" sorts before "Eth1/2" *)
+Example order_numeric_example :
+  exists a b, parse_intf [69; 116; 104; 49; 47; 50] = Ok a /\ parse_intf [69; 116; 104; 49; 47; 49; 48] = Ok b /\
+              same_shape a b /\ intf_lt a b = Ok true /\ str_ltb (render b) (render a) = true.
+Proof.
+  eexists. eexists. split; [vm_compute; reflexivity|]. split; [vm_compute; reflexivity|].
+  split; [unfold same_shape; simpl; auto|]. split; vm_compute; reflexivity.
+Qed.
+
+(* ================================================================== range expansion *)
+Lemma item_eqb_refl x : item_eqb x x = true.
+Proof. apply item_eqb_eq. reflexivity. Qed.
+
+Lemma list_lt_at pre post v w :
+  list_lt (pre ++ IInt v :: post) (pre ++ IInt w :: post) = Ok (N.ltb v w).
+Proof.
+  induction pre as [|x r IH]; simpl.
+  - destruct (N.eqb v w) eqn:E; [|reflexivity]. apply N.eqb_eq in E. subst. rewrite list_lt_refl, N.ltb_irrefl. reflexivity.
+  - rewrite item_eqb_refl. assumption.
+Qed.
+
+Lemma list_eqb_refl l : list_eqb item_eqb l l = true.
+Proof. apply list_eqb_item. reflexivity. Qed.
+
+Lemma list_eqb_at pre post v w :
+  list_eqb item_eqb (pre ++ IInt v :: post) (pre ++ IInt w :: post) = N.eqb v w.
+Proof.
+  induction pre as [|x r IH]; simpl.
+  - rewrite list_eqb_refl. apply andb_true_r.
+  - rewrite item_eqb_refl. assumption.
+Qed.
+
+Definition member (a : iattr) (base : intf) (v : N) : intf := set_attr a base (Some v).
+
+Lemma member_sort_list a base : exists pre post, forall v, sort_list (member a base v) = pre ++ IInt v :: post.
+Proof.
+  destruct a.
+  - exists [oi (i_slot base); oi (i_card base); IInt (i_port base); oi (i_sub base)], [os (i_class base)]. reflexivity.
+  - exists [oi (i_slot base); oi (i_card base); IInt (i_port base)], [oi (i_chan base); os (i_class base)]. reflexivity.
+  - exists [oi (i_slot base); oi (i_card base)], [oi (i_sub base); oi (i_chan base); os (i_class base)]. reflexivity.
+Qed.
+
+Lemma member_prefix a base v : i_prefix (member a base v) = i_prefix base.
+Proof. destruct a; reflexivity. Qed.
+
+Lemma member_lt a base v w : intf_lt (member a base v) (member a base w) = Ok (N.ltb v w).
+Proof. destruct (member_sort_list a base) as [pre [post H]]. unfold intf_lt. rewrite !H. apply list_lt_at. Qed.
+
+Lemma member_eqb a base v w : intf_eqb (member a base v) (member a base w) = N.eqb v w.
+Proof.
+  destruct (member_sort_list a base) as [pre [post H]]. unfold intf_eqb. rewrite !member_prefix, str_eqb_refl, !H. apply list_eqb_at.
+Qed.
+
+Lemma member_ltb_tot a base v w : ltb_tot (member a base v) (member a base w) = N.ltb v w.
+Proof. unfold ltb_tot. rewrite member_lt. reflexivity. Qed.
+
+Lemma member_comparable a base v w : comparable (member a base v) (member a base w) = true.
+Proof. unfold comparable. rewrite member_lt. reflexivity. Qed.
+
+(* numeric counterparts of dedup / isort *)
+Fixpoint dedupN (l : list N) : list N :=
+  match l with [] => [] | x :: r => x :: filter (fun y => negb (N.eqb x y)) (dedupN r) end.
+Fixpoint insertN (x : N) (l : list N) : list N :=
+  match l with [] => [x] | y :: r => if N.ltb y x then y :: insertN x r else x :: l end.
+Definition sortN (l : list N) : list N := fold_right insertN [] l.
+
+Section Family.
+Variables (a : iattr) (base : intf).
+Let m := member a base.
+
+Lemma filter_map_member x l :
+  filter (fun y => negb (intf_eqb (m x) y)) (map m l) = map m (filter (fun y => negb (N.eqb x y)) l).
+Proof.
+  induction l as [|y r IH]; simpl; [reflexivity|]. unfold m at 1 2. rewrite member_eqb. fold m.
+  destruct (N.eqb x y); simpl; rewrite IH; reflexivity.
+Qed.
+
+Lemma dedup_member l : dedup (map m l) = map m (dedupN l).
+Proof. induction l as [|x r IH]; simpl; [reflexivity|]. rewrite IH, filter_map_member. reflexivity. Qed.
+
+Lemma insert_member x l : insert_sorted (m x) (map m l) = map m (insertN x l).
+Proof.
+  induction l as [|y r IH]; simpl; [reflexivity|]. unfold m at 1 2. rewrite member_ltb_tot. fold m.
+  destruct (N.ltb y x); simpl; [rewrite IH|]; reflexivity.
+Qed.
+
+Lemma isort_member l : isort (map m l) = map m (sortN l).
+Proof. induction l as [|x r IH]; simpl; [reflexivity|]. unfold isort in *. simpl. rewrite IH. apply insert_member. Qed.
+
+Lemma all_comparable_member l : all_comparable (map m l) = true.
+Proof.
+  induction l as [|x r IH]; simpl; [reflexivity|]. rewrite IH, andb_true_r. apply forallb_forall.
+  intros y Hy. apply in_map_iff in Hy. destruct Hy as [w [<- _]]. apply member_comparable.
+Qed.
+
+Lemma py_sorted_member l : py_sorted (map m l) = Ok (map m (sortN l)).
+Proof. unfold py_sorted. rewrite all_comparable_member, isort_member. reflexivity. Qed.
+End Family.
+
+(* sortN (dedupN l): strictly ascending, same members *)
+Lemma dedupN_in l x : In x (dedupN l) <-> In x l.
+Proof.
+  induction l as [|y r IH]; simpl; [tauto|]. rewrite filter_In, IH, negb_true_iff, N.eqb_neq. split.
+  - intros [H|[H _]]; auto.
+  - intros [H|H]; [auto|]. destruct (N.eq_dec y x); auto.
+Qed.
+
+Lemma dedupN_nodup l : NoDup (dedupN l).
+Proof.
+  induction l as [|y r IH]; simpl; constructor.
+  - rewrite filter_In, negb_true_iff, N.eqb_neq. intros [_ H]. congruence.
+  - apply NoDup_filter. assumption.
+Qed.
+
+Lemma insertN_in x l y : In y (insertN x l) <-> y = x \/ In y l.
+Proof.
+  induction l as [|z r IH]; simpl; [intuition|]. destruct (N.ltb z x); simpl; [rewrite IH|]; intuition.
+Qed.
+
+Lemma insertN_sorted x l : StronglySorted N.lt l -> ~ In x l -> StronglySorted N.lt (insertN x l).
+Proof.
+  induction l as [|z r IH]; simpl; intros Hs Hn.
+  - constructor; constructor.
+  - inversion Hs as [|z' r' Hs' Hall]; subst. destruct (N.ltb z x) eqn:E.
+    + apply N.ltb_lt in E. constructor; [apply IH; auto|]. apply Forall_forall. intros y Hy. apply insertN_in in Hy.
+      destruct Hy as [->|Hy]; [assumption|]. rewrite Forall_forall in Hall. auto.
+    + apply N.ltb_ge in E. assert (x < z) by (assert (x <> z) by (intros ->; apply Hn; left; reflexivity); lia).
+      constructor; [assumption|]. constructor; [assumption|]. rewrite Forall_forall in *. intros y Hy. specialize (Hall y Hy). lia.
+Qed.
+
+Lemma sortN_in l x : In x (sortN l) <-> In x l.
+Proof. induction l as [|y r IH]; simpl; [tauto|]. rewrite insertN_in, IH. intuition. Qed.
+
+Lemma sortN_sorted l : NoDup l -> StronglySorted N.lt (sortN l).
+Proof.
+  induction l as [|y r IH]; simpl; intros Hn; [constructor|]. inversion Hn; subst.
+  apply insertN_sorted; [auto|]. rewrite sortN_in. assumption.
+Qed.
+
+Lemma sorted_values_spec l :
+  StronglySorted N.lt (sortN (dedupN l)) /\ (forall v, In v (sortN (dedupN l)) <-> In v l).
+Proof. split; [apply sortN_sorted, dedupN_nodup|]. intros v. rewrite sortN_in, dedupN_in. tauto. Qed.
+
+Lemma strongly_sorted_nodup l : StronglySorted N.lt l -> NoDup l.
+Proof.
+  induction 1 as [|x r Hs IH Hall]; constructor; [|assumption]. intros Hin. rewrite Forall_forall in Hall. specialize (Hall x Hin). lia.
+Qed.
+
+(* attribute algebra *)
+Lemma set_attr_self a base v : get_attr a base = Some v -> set_attr a base (Some v) = base.
+Proof. destruct base, a; simpl; intros H; inversion H; reflexivity. Qed.
+Lemma set_attr_twice a base x v : set_attr a (set_attr a base x) (Some v) = set_attr a base (Some v).
+Proof. destruct a; reflexivity. Qed.
+
+(* the values listed by one token (start interface, optional end ordinal) *)
+Definition tok_vals (a : iattr) (t : intf * option N) : list N :=
+  match get_attr a (fst t) with
+  | None => []
+  | Some v => match snd t with None => [v] | Some en => py_range v en end
+  end.
+
+Lemma part_members_ok a base first t v :
+  get_attr a (fst t) = Some v -> (first = true -> get_attr a base = Some v) ->
+  part_members a base first t = Ok (map (member a base) (tok_vals a t)).
+Proof.
+  destruct t as [start e]. simpl. intros Hv Hf. unfold part_members, tok_vals. simpl. rewrite Hv.
+  destruct e as [en|].
+  - f_equal. apply map_ext. intros v'. destruct first; [reflexivity|]. apply set_attr_twice.
+  - simpl. f_equal. f_equal. destruct first; [|reflexivity]. symmetry. apply set_attr_self. auto.
+Qed.
+
+Lemma members_loop_ok a base : forall toks first,
+  (forall t, In t toks -> get_attr a (fst t) <> None) ->
+  (first = true -> match toks with t0 :: _ => get_attr a (fst t0) = get_attr a base | [] => True end) ->
+  members_loop a base first toks = Ok (map (member a base) (flat_map (tok_vals a) toks)).
+Proof.
+  induction toks as [|t r IH]; intros first Hg Hf; simpl; [reflexivity|].
+  destruct (get_attr a (fst t)) as [v|] eqn:Ev; [|exfalso; apply (Hg t (or_introl eq_refl)); assumption].
+  assert (Hb : first = true -> get_attr a base = Some v).
+  { intros E. specialize (Hf E). simpl in Hf. congruence. }
+  rewrite (part_members_ok a base first t v Ev Hb).
+  simpl. rewrite IH; [|intros t' Ht'; apply Hg; right; assumption|discriminate].
+  simpl. rewrite map_app. reflexivity.
+Qed.
+
+Lemma range_expand_spec base toks :
+  let a := pick_attr base in
+  let vals := flat_map (tok_vals a) toks in
+  (forall t, In t toks -> get_attr a (fst t) <> None) ->
+  match toks with t0 :: _ => get_attr a (fst t0) = get_attr a base | [] => True end ->
+  (vals <> [] ->
+     expand base toks = Ok (map (member a base) (sortN (dedupN vals))) /\
+     StronglySorted N.lt (sortN (dedupN vals)) /\ (forall v, In v (sortN (dedupN vals)) <-> In v vals)) /\
+  (vals = [] -> expand base toks = Raise E_ValueError).
+Proof.
+  intros a vals Hg Hf. unfold expand. fold a. rewrite (members_loop_ok a base toks true Hg (fun _ => Hf)). simpl. fold vals.
+  rewrite dedup_member. split.
+  - intros Hne. destruct (dedupN vals) as [|x r] eqn:E.
+    + exfalso. destruct vals as [|v0 vr]; [congruence|]. pose proof (proj2 (dedupN_in (v0 :: vr) v0) (or_introl eq_refl)) as H. rewrite E in H. exact H.
+    + rewrite <- E. destruct (map (member a base) (dedupN vals)) as [|y s] eqn:Em; [rewrite E in Em; discriminate|]. rewrite <- Em.
+      rewrite py_sorted_member. split; [reflexivity|apply sorted_values_spec].
+  - intros ->. reflexivity.
+Qed.
+
+(* the iterated component of a port range is always present: no guard needed *)
+Lemma range_expand_port base toks :
+  pick_attr base = A_port ->
+  match toks with t0 :: _ => i_port (fst t0) = i_port base | [] => True end ->
+  flat_map (tok_vals A_port) toks <> [] ->
+  exists vs, expand base toks = Ok (map (member A_port base) vs) /\ StronglySorted N.lt vs /\
+             (forall v, In v vs <-> In v (flat_map (tok_vals A_port) toks)).
+Proof.
+  intros Ha Hf Hne. pose proof (range_expand_spec base toks) as H. rewrite Ha in H. simpl in H.
+  destruct H as [H _]; [intros t _; discriminate|destruct toks; [exact I|simpl; f_equal; assumption]|].
+  exists (sortN (dedupN (flat_map (tok_vals A_port) toks))). apply H. assumption.
+Qed.
+
+(* F20/F28: when the iterated component is a channel (or sub-interface), a later bare part has no such component *)
+Lemma range_channel_refuted :
+  parse_range [83; 101; 114; 105; 97; 108; 49; 47; 48; 58; 49; 45; 51; 44; 55] = Raise E_TypeError.   (* "Serial1/0:1-3,7" *)
+Proof. vm_compute. reflexivity. Qed.
+Lemma range_dash_prefix_refuted :
+  parse_range [80; 111; 114; 116; 45; 99; 104; 97; 110; 110; 101; 108; 49; 44; 51] = Raise E_Other.     (* "Port-channel1,3" *)
+Proof. vm_compute. reflexivity. Qed.
+(* F27: a class word holding a digit is dropped *)
+Lemma class_digit_refuted :
+  exists c, parse_intf [69; 116; 104; 49; 47; 50; 32; 108; 50; 116; 114; 97; 110; 115; 112; 111; 114; 116] = Ok c /\ i_class c = None.  (* "Eth1/2 l2transport" *)
+Proof. eexists. split; [vm_compute; reflexivity|reflexivity]. Qed.
+
+Example range_example :
+  option_map (map render) (match parse_range [69; 116; 104; 49; 47; 51; 44; 49; 45; 50; 44; 50] with Ok l => Some l | Raise _ => None end)   (* "Eth1/3,1-2,2" *)
+  = Some [[69; 116; 104; 49; 47; 49]; [69; 116; 104; 49; 47; 50]; [69; 116; 104; 49; 47; 51]].
+Proof. vm_compute. reflexivity. Qed.
+
+(* ================================================================== read accessors *)
+Lemma readers_pure st rs : fst (read_all st rs) = st /\ snd (read_all st rs) = map (fun r => snd (read st r)) rs.
+Proof.
+  induction rs as [|r more IH]; simpl; [auto|].
+  assert (E : fst (read st r) = st) by (destruct r; reflexivity).
+  destruct (read st r) as [st1 o] eqn:Er. simpl in E. subst st1.
+  destruct (read_all st more) as [st2 os]. simpl in *. destruct IH as [-> ->]. auto.
+Qed.
+
+Lemma filter_all_true {A} (p : A -> bool) l : forallb p l = true -> filter p l = l.
+Proof.
+  induction l as [|x r IH]; simpl; [reflexivity|]. intros H. apply andb_true_iff in H. destruct H as [H1 H2].
+  rewrite H1, IH by assumption. reflexivity.
+Qed.
+
+Lemma dedupN_id l : NoDup l -> dedupN l = l.
+Proof.
+  induction 1 as [|x r Hn Hnd IH]; simpl; [reflexivity|]. rewrite IH. f_equal.
+  apply filter_all_true. apply forallb_forall. intros y Hy.
+  apply negb_true_iff, N.eqb_neq. intros ->. contradiction.
+Qed.
+
+Lemma insertN_head x l : Forall (N.lt x) l -> insertN x l = x :: l.
+Proof.
+  destruct l as [|y r]; simpl; [reflexivity|]. intros H. inversion H; subst.
+  assert (E : N.ltb y x = false) by (apply N.ltb_ge; lia). rewrite E. reflexivity.
+Qed.
+
+Lemma sortN_id l : StronglySorted N.lt l -> sortN l = l.
+Proof.
+  induction 1 as [|x r Hs IH Hall]; simpl; [reflexivity|]. unfold sortN in *. rewrite IH. apply insertN_head. assumption.
+Qed.
+
+(* as_list() of an expanded range returns the members in the order of iteration, and nothing else changes *)
+Lemma as_list_agrees a base vs :
+  StronglySorted N.lt vs -> vs <> [] ->
+  read (map (member a base) vs) R_as_list = (map (member a base) vs, O_list (map render (map (member a base) vs))).
+Proof.
+  intros Hs Hne. unfold read. destruct (map (member a base) vs) as [|y s] eqn:E; [destruct vs; [congruence|discriminate]|].
+  rewrite <- E. rewrite dedup_member, py_sorted_member, dedupN_id, sortN_id by (try apply strongly_sorted_nodup; assumption).
+  reflexivity.
+Qed.
+
+Lemma len_agrees st : read st R_len = (st, O_len (N.of_nat (length st))).
+Proof. reflexivity. Qed.
+
+(* ================================================================== tokenisation of one comma-separated part *)
+Lemma split_on_aux_nosep sep a : forall cur rest, forallb (not_char sep) a = true ->
+  split_on_aux sep cur (a ++ rest) = split_on_aux sep (rev a ++ cur) rest.
+Proof.
+  induction a as [|c r IH]; intros cur rest H; simpl; [reflexivity|].
+  apply andb_true_iff in H. destruct H as [H1 H2]. unfold not_char in H1. apply negb_true_iff in H1. rewrite H1.
+  rewrite IH by assumption. rewrite <- app_assoc. reflexivity.
+Qed.
+
+Lemma split_on_nosep sep a : forallb (not_char sep) a = true -> split_on sep a = [a].
+Proof.
+  intros H. unfold split_on. pose proof (split_on_aux_nosep sep a [] [] H) as E. rewrite app_nil_r in E. rewrite E. simpl.
+  rewrite app_nil_r, rev_involutive. reflexivity.
+Qed.
+
+Lemma split_on_app sep a b : forallb (not_char sep) a = true -> split_on sep (a ++ sep :: b) = a :: split_on sep b.
+Proof.
+  intros H. unfold split_on. rewrite split_on_aux_nosep by assumption. simpl. rewrite N.eqb_refl, app_nil_r, rev_involutive. reflexivity.
+Qed.
+
+Lemma existsb_not_char sep a : forallb (not_char sep) a = true -> existsb (N.eqb sep) a = false.
+Proof.
+  induction a as [|c r IH]; simpl; [reflexivity|]. intros H. apply andb_true_iff in H. destruct H as [H1 H2].
+  unfold not_char in H1. apply negb_true_iff in H1. rewrite N.eqb_sym, H1. simpl. auto.
+Qed.
+
+Lemma ext_all_cls sub chan cls (P : char -> bool) :
+  (forall d, is_digit d = true -> P d = true) -> match cls with Some w => forallb P w = true | None => True end ->
+  P c_dot = true -> P c_colon = true -> P c_space = true -> forallb P (ext_of sub chan cls) = true.
+Proof.
+  intros Hd Hc H1 H2 H3. unfold ext_of. rewrite !forallb_app'. repeat (apply andb_true_iff; split).
+  - destruct sub; [|reflexivity]. simpl. rewrite H1. apply digits_all; assumption.
+  - destruct chan; [|reflexivity]. simpl. rewrite H2. apply digits_all; assumption.
+  - destruct cls as [w|]; [|reflexivity]. simpl. rewrite H3. assumption.
+Qed.
+
+Lemma tail_all_cls (P : char -> bool) c : shape_ok c ->
+  (forall d, is_digit d = true -> P d = true) -> match i_class c with Some w => forallb P w = true | None => True end ->
+  P c_dot = true -> P c_colon = true -> P c_space = true -> (i_slot c <> None -> P c_slash = true) ->
+  forallb P (tail_str c) = true.
+Proof.
+  intros Hs Hd Hw H1 H2 H3 H4.
+  destruct (tail_cases c Hs) as [[_ [_ [_ E]]]|[sl [E1 [_ E]]]]; rewrite E, forallb_app'; apply andb_true_iff; split.
+  - apply digits_all; assumption.
+  - apply ext_all_cls; assumption.
+  - apply number_long_all; [assumption|]. apply H4. rewrite E1. discriminate.
+  - apply ext_all_cls; assumption.
+Qed.
+
+(* no '-' in the prefix nor in the class word (the guard that F28 violates) *)
+Definition dash_free (c : intf) : Prop :=
+  forallb (not_char c_dash) (i_prefix c) = true /\
+  match i_class c with Some w => forallb (not_char c_dash) w = true | None => True end.
+
+Lemma render_no_dash c : canon c -> dash_free c -> forallb (not_char c_dash) (render c) = true.
+Proof.
+  intros [_ [_ [_ Hs]]] [H1 H2]. unfold render. rewrite forallb_app', H1. simpl.
+  apply tail_all_cls; try assumption; try reflexivity.
+  intros d Hd. unfold not_char. rewrite (digit_not_dash d Hd). reflexivity.
+Qed.
+
+Lemma render_no_edge c : canon c -> no_edge is_space (render c).
+Proof.
+  intros [Hp [Hpe [Hc Hs]]]. unfold render.
+  destruct (tail_starts_digit c Hs) as [d0 [t0 [Et Hd0]]].
+  destruct (tail_last_not_space c Hc Hs) as [ty [td [Ety Htd]]]. split.
+  - destruct (i_prefix c) as [|c0 pr] eqn:Ep.
+    + simpl. rewrite Et. simpl. apply digit_not_space. assumption.
+    + simpl. destruct Hpe as [H _]. exact H.
+  - rewrite Ety, !rev_app_distr. simpl. exact Htd.
+Qed.
+
+Lemma strip_render c : canon c -> strip (render c) = render c.
+Proof. intros H. apply strip_by_id, render_no_edge. assumption. Qed.
+
+Lemma nth_str_0 x l : nth_str (x :: l) 0 = x.
+Proof. reflexivity. Qed.
+
+(* a part without '-' : a single interface *)
+Lemma part_token_single c : canon c -> dash_free c -> part_token (render c) = Ok (c, None).
+Proof.
+  intros Hc Hd. pose proof (render_no_dash c Hc Hd) as Hn. unfold part_token.
+  rewrite (split_on_nosep c_dash _ Hn), nth_str_0, (strip_render c Hc), (name_roundtrip c Hc). simpl.
+  rewrite (existsb_not_char c_dash _ Hn). reflexivity.
+Qed.
+
+(* a part  <interface>-<end> *)
+Lemma part_token_range c e : canon c -> dash_free c ->
+  part_token (render c ++ c_dash :: render_dec e) = Ok (c, Some e).
+Proof.
+  intros Hc Hd. pose proof (render_no_dash c Hc Hd) as Hn. unfold part_token.
+  assert (He : forallb (not_char c_dash) (render_dec e) = true).
+  { apply digits_all. intros d H. unfold not_char. rewrite (digit_not_dash d H). reflexivity. }
+  rewrite (split_on_app c_dash _ _ Hn), (split_on_nosep c_dash _ He), nth_str_0, (strip_render c Hc), (name_roundtrip c Hc). simpl.
+  assert (Hx : existsb (N.eqb c_dash) (render c ++ c_dash :: render_dec e) = true).
+  { rewrite existsb_app. simpl. apply orb_true_r. }
+  rewrite Hx.
+  assert (Hst : strip (render_dec e) = render_dec e).
+  { apply strip_by_id, no_edge_all_not. apply digits_all. intros d H. rewrite (digit_not_space d H). reflexivity. }
+  rewrite Hst, (filter_all_true is_digit _ (render_dec_digits e)).
+  pose proof (render_dec_val e) as Hv. pose proof (render_dec_nonempty e) as Hne.
+  destruct (render_dec e) as [|d0 dr]; [congruence|]. exact (f_equal (fun v => Ok (c, Some v)) Hv).
+Qed.
+
+(* the bare parts after the first: "<n>" and "<n>-<end>" *)
+Definition bare (n : N) : intf := mk_intf [] None None None n None None None.
+Lemma bare_canon n : canon (bare n).
+Proof. unfold canon, bare. simpl. repeat split; auto. left. auto. Qed.
+Lemma bare_dash_free n : dash_free (bare n).
+Proof. split; [reflexivity|exact I]. Qed.
+Lemma bare_render n : render (bare n) = render_dec n.
+Proof. unfold render, tail_str, number_str, bare. simpl. rewrite !app_nil_r. reflexivity. Qed.
+
+Lemma part_token_bare n : part_token (render_dec n) = Ok (bare n, None).
+Proof. rewrite <- bare_render. apply part_token_single; [apply bare_canon|apply bare_dash_free]. Qed.
+Lemma part_token_bare_range n e : part_token (render_dec n ++ c_dash :: render_dec e) = Ok (bare n, Some e).
+Proof. rewrite <- bare_render. apply part_token_range; [apply bare_canon|apply bare_dash_free]. Qed.
+
+(* ================================================================== the whole range text (no class word, port iterated) *)
+Definition optdash (e : option N) : str := match e with Some n => c_dash :: render_dec n | None => [] end.
+Definition part_text (it : N * option N) : str := render_dec (fst it) ++ optdash (snd it).
+Fixpoint join_comma (l : list str) : str :=
+  match l with [] => [] | [x] => x | x :: r => x ++ c_comma :: join_comma r end.
+(* "<interface>[-<end>],<n>[-<end>],..." *)
+Definition range_text (base : intf) (e0 : option N) (items : list (N * option N)) : str :=
+  join_comma ((render base ++ optdash e0) :: map part_text items).
+
+Definition item_vals (it : N * option N) : list N :=
+  match snd it with None => [fst it] | Some en => py_range (fst it) en end.
+
+Lemma join_comma_cons x y r : join_comma (x :: y :: r) = x ++ c_comma :: join_comma (y :: r).
+Proof. reflexivity. Qed.
+
+Lemma split_join parts : parts <> [] -> Forall (fun p => forallb (not_char c_comma) p = true) parts ->
+  split_on c_comma (join_comma parts) = parts.
+Proof.
+  induction parts as [|x r IH]; intros Hn Hall; [congruence|]. inversion Hall as [|x' r' Hx Hr]; subst.
+  destruct r as [|y r].
+  - simpl. apply split_on_nosep. assumption.
+  - rewrite join_comma_cons, split_on_app by assumption. f_equal. apply IH; [discriminate|assumption].
+Qed.
+
+Lemma contains_cc_free c x : forallb (not_char c) x = true -> contains [c; c] x = false.
+Proof.
+  induction x as [|a r IH]; simpl; intros H; [reflexivity|]. apply andb_true_iff in H. destruct H as [H1 H2].
+  unfold not_char in H1. apply negb_true_iff in H1. rewrite N.eqb_sym in H1. rewrite H1. simpl. apply IH. assumption.
+Qed.
+
+Lemma contains_cc_app c x rest : forallb (not_char c) x = true -> x <> [] -> stops (N.eqb c) rest ->
+  contains [c; c] (x ++ c :: rest) = contains [c; c] rest.
+Proof.
+  induction x as [|a r IH]; intros H Hn Hr; [congruence|]. simpl in H. apply andb_true_iff in H. destruct H as [H1 H2].
+  unfold not_char in H1. apply negb_true_iff in H1. rewrite N.eqb_sym in H1.
+  change ((a :: r) ++ c :: rest) with (a :: (r ++ c :: rest)). cbn [contains starts_with]. rewrite H1. cbn [andb orb].
+  destruct r as [|b r'].
+  - cbn [app contains starts_with]. rewrite N.eqb_refl. cbn [andb].
+    destruct rest as [|d rest']; [reflexivity|]. simpl in Hr. rewrite Hr. reflexivity.
+  - apply IH; [assumption|discriminate|assumption].
+Qed.
+
+Lemma join_head_stops c parts : parts <> [] -> Forall (fun p => forallb (not_char c) p = true /\ p <> []) parts ->
+  stops (N.eqb c) (join_comma parts).
+Proof.
+  destruct parts as [|x r]; [congruence|]. intros _ H. inversion H as [|x' r' [Hx Hne] Hr]; subst.
+  destruct x as [|a x']; [congruence|]. simpl in Hx. apply andb_true_iff in Hx. destruct Hx as [H1 _].
+  unfold not_char in H1. apply negb_true_iff in H1. rewrite N.eqb_sym in H1.
+  destruct r; simpl; exact H1.
+Qed.
+
+Lemma contains_join parts : Forall (fun p => forallb (not_char c_comma) p = true /\ p <> []) parts ->
+  contains [c_comma; c_comma] (join_comma parts) = false.
+Proof.
+  induction parts as [|x r IH]; intros H; [reflexivity|]. inversion H as [|x' r' [Hx Hne] Hr]; subst.
+  destruct r as [|y r].
+  - simpl. apply contains_cc_free. assumption.
+  - rewrite join_comma_cons, contains_cc_app; [apply IH; assumption|assumption|assumption|].
+    apply join_head_stops; [discriminate|assumption].
+Qed.
+
+Lemma split_ws_aux_nospace a : forall cur rest, forallb (fun c => negb (is_space c)) a = true ->
+  split_ws_aux is_space cur (a ++ rest) = split_ws_aux is_space (rev a ++ cur) rest.
+Proof.
+  induction a as [|c r IH]; intros cur rest H; simpl; [reflexivity|].
+  apply andb_true_iff in H. destruct H as [H1 H2]. apply negb_true_iff in H1. rewrite H1.
+  rewrite IH by assumption. rewrite <- app_assoc. reflexivity.
+Qed.
+
+Lemma split_ws_nospace a : a <> [] -> forallb (fun c => negb (is_space c)) a = true -> split_ws a = [a].
+Proof.
+  intros Hn H. unfold split_ws. pose proof (split_ws_aux_nospace a [] [] H) as E. rewrite app_nil_r in E. rewrite E. simpl.
+  rewrite app_nil_r. destruct (rev a) as [|c r] eqn:Er.
+  - exfalso. apply Hn. rewrite <- (rev_involutive a), Er. reflexivity.
+  - rewrite <- Er, rev_involutive. reflexivity.
+Qed.
+
+Lemma filter_digit_nonempty a d b : is_digit d = true -> filter is_digit (a ++ d :: b) <> [].
+Proof. intros H. rewrite filter_app. simpl. rewrite H. destruct (filter is_digit a); discriminate. Qed.
+
+(* hypotheses on the first interface of the range *)
+Definition plain_base (base : intf) : Prop :=
+  canon base /\ dash_free base /\ i_class base = None /\ i_sub base = None /\ i_chan base = None /\
+  forallb (fun c => negb (is_space c)) (i_prefix base) = true.
+
+Lemma plain_tail base : plain_base base -> forall (P : char -> bool),
+  (forall d, is_digit d = true -> P d = true) -> P c_slash = true -> forallb P (tail_str base) = true.
+Proof.
+  intros [[_ [_ [_ Hs]]] [_ [Hc [Hsub [Hch _]]]]] P Hd Hsl.
+  destruct (tail_cases base Hs) as [[_ [_ [_ E]]]|[sl [_ [_ E]]]]; rewrite E, Hc, Hsub, Hch; unfold ext_of; simpl; rewrite app_nil_r.
+  - apply digits_all. assumption.
+  - apply number_long_all; assumption.
+Qed.
+
+Lemma plain_render_all base (P : char -> bool) : plain_base base ->
+  forallb P (i_prefix base) = true -> (forall d, is_digit d = true -> P d = true) -> P c_slash = true ->
+  forallb P (render base) = true.
+Proof. intros Hb Hp Hd Hs. unfold render. rewrite forallb_app', Hp. simpl. apply plain_tail; assumption. Qed.
+
+Lemma optdash_all (P : char -> bool) e : (forall d, is_digit d = true -> P d = true) -> P c_dash = true -> forallb P (optdash e) = true.
+Proof. intros Hd H. destruct e as [n|]; [|reflexivity]. simpl. rewrite H. apply digits_all. assumption. Qed.
+
+Lemma part_text_all (P : char -> bool) it : (forall d, is_digit d = true -> P d = true) -> P c_dash = true -> forallb P (part_text it) = true.
+Proof. intros Hd H. unfold part_text. rewrite forallb_app', digits_all, optdash_all by assumption. reflexivity. Qed.
+
+Lemma part_token_first base e0 : plain_base base -> part_token (render base ++ optdash e0) = Ok (base, e0).
+Proof.
+  intros [Hc [Hd _]]. destruct e0 as [e|]; simpl.
+  - apply part_token_range; assumption.
+  - rewrite app_nil_r. apply part_token_single; assumption.
+Qed.
+
+Lemma part_token_item it : part_token (part_text it) = Ok (bare (fst it), snd it).
+Proof.
+  destruct it as [a [e|]]; unfold part_text; simpl.
+  - apply part_token_bare_range.
+  - rewrite app_nil_r. apply part_token_bare.
+Qed.
+
+Lemma map_res_items items : map_res part_token (map part_text items) = Ok (map (fun it => (bare (fst it), snd it)) items).
+Proof. induction items as [|it r IH]; simpl; [reflexivity|]. rewrite part_token_item, IH. reflexivity. Qed.
+
+Lemma tok_vals_items items :
+  flat_map (tok_vals A_port) (map (fun it => (bare (fst it), snd it)) items) = flat_map item_vals items.
+Proof. induction items as [|it r IH]; simpl; [reflexivity|]. rewrite IH. reflexivity. Qed.
+
+(* range_text_spec: the text "<interface>[-e0],<n>[-e],..." expands to the first interface with its port
+   replaced by every listed value, each once, ascending *)
+Lemma range_text_spec base e0 items :
+  plain_base base ->
+  let vals := item_vals (i_port base, e0) ++ flat_map item_vals items in
+  vals <> [] ->
+  exists vs, parse_range (range_text base e0 items) = Ok (map (member A_port base) vs) /\
+             StronglySorted N.lt vs /\ (forall v, In v vs <-> In v vals).
+Proof.
+  intros Hb vals Hne. pose proof Hb as [Hc [Hd [Hcls [Hsub [Hch Hsp]]]]].
+  set (parts := (render base ++ optdash e0) :: map part_text items).
+  assert (Hdig : forall (P : char -> bool) (x : char), True) by auto.
+  (* every part is comma-free, non-empty, space-free *)
+  assert (Hparts : Forall (fun p => forallb (not_char c_comma) p = true /\ p <> []) parts).
+  { unfold parts. constructor.
+    - split.
+      + rewrite forallb_app'. apply andb_true_iff. split.
+        * apply plain_render_all; [assumption| |intros d H; unfold not_char; rewrite (digit_not_comma d H); reflexivity|reflexivity].
+          destruct Hc as [Hp _]. apply (forallb_impl in_prefix); [|assumption]. intros x Hx. unfold not_char. rewrite (prefix_not_comma x Hx). reflexivity.
+        * apply optdash_all; [intros d H; unfold not_char; rewrite (digit_not_comma d H); reflexivity|reflexivity].
+      + destruct Hc as [_ [_ [_ Hs]]]. destruct (tail_starts_digit base Hs) as [d0 [t0 [Et _]]]. unfold render. rewrite Et.
+        destruct (i_prefix base); discriminate.
+    - apply Forall_forall. intros p Hp. apply in_map_iff in Hp. destruct Hp as [it [<- _]]. split.
+      + apply part_text_all; [intros d H; unfold not_char; rewrite (digit_not_comma d H); reflexivity|reflexivity].
+      + unfold part_text. apply render_app_nonempty. }
+  assert (Hparts1 : Forall (fun p => forallb (not_char c_comma) p = true) parts).
+  { apply Forall_forall. intros p Hp. rewrite Forall_forall in Hparts. apply (Hparts p Hp). }
+  assert (Hnospace : forallb (fun c => negb (is_space c)) (join_comma parts) = true).
+  { assert (Hall : Forall (fun p => forallb (fun c => negb (is_space c)) p = true) parts).
+    { unfold parts. constructor.
+      - rewrite forallb_app'. apply andb_true_iff. split.
+        + apply plain_render_all; [assumption|assumption|intros d H; rewrite (digit_not_space d H); reflexivity|reflexivity].
+        + apply optdash_all; [intros d H; rewrite (digit_not_space d H); reflexivity|reflexivity].
+      - apply Forall_forall. intros p Hp. apply in_map_iff in Hp. destruct Hp as [it [<- _]].
+        apply part_text_all; [intros d H; rewrite (digit_not_space d H); reflexivity|reflexivity]. }
+    clear -Hall. induction parts as [|x r IH]; [reflexivity|]. inversion Hall; subst. destruct r as [|y r]; [assumption|].
+    rewrite join_comma_cons, forallb_app'. apply andb_true_iff. split; [assumption|]. simpl. apply IH. assumption. }
+  assert (Htext : range_text base e0 items = join_comma parts) by reflexivity.
+  assert (Hhead : exists d t p, join_comma parts = p ++ d :: t /\ is_digit d = true).
+  { destruct Hc as [_ [_ [_ Hs]]]. destruct (tail_starts_digit base Hs) as [d0 [t0 [Et Hd0]]].
+    exists d0. unfold parts. destruct (map part_text items) as [|y r].
+    - exists (t0 ++ optdash e0), (i_prefix base). split; [|assumption]. simpl. unfold render. rewrite Et, <- app_assoc. reflexivity.
+    - exists (t0 ++ optdash e0 ++ c_comma :: join_comma (y :: r)), (i_prefix base). split; [|assumption].
+      rewrite join_comma_cons. unfold render. rewrite Et, <- !app_assoc. reflexivity. }
+  destruct Hhead as [d [t [p [Ejoin Hdd]]]].
+  unfold parse_range. rewrite Htext.
+  rewrite match_nonempty by (rewrite Ejoin; destruct p; discriminate).
+  rewrite (contains_join parts Hparts).
+  rewrite (split_join parts) by (try discriminate; assumption).
+  unfold parts at 1. cbn [map_res]. rewrite (part_token_first base e0 Hb). cbn [bind]. rewrite map_res_items. cbn [bind].
+  (* no class word for the whole text *)
+  assert (Hrc : range_class (join_comma parts) = None).
+  { unfold range_class. rewrite split_ws_nospace; [|rewrite Ejoin; destruct p; discriminate|assumption].
+    change (rev [join_comma parts]) with [join_comma parts]. cbv iota.
+    destruct (filter is_digit (join_comma parts)) eqn:Ef; [|reflexivity]. exfalso. rewrite Ejoin in Ef. revert Ef. apply filter_digit_nonempty. assumption. }
+  rewrite Hrc.
+  assert (Ha : pick_attr base = A_port) by (unfold pick_attr; rewrite Hch, Hsub; reflexivity).
+  destruct (range_expand_port base ((base, e0) :: map (fun it => (bare (fst it), snd it)) items) Ha) as [vs [H1 [H2 H3]]].
+  - reflexivity.
+  - simpl. rewrite tok_vals_items. exact Hne.
+  - exists vs. split; [assumption|]. split; [assumption|]. intros v. rewrite H3. simpl. rewrite tok_vals_items. reflexivity.
+Qed.
+
+(* ================================================================== range text with a trailing class word *)
+Definition classword (w : str) : Prop := w <> [] /\ forallb in_classw w = true /\ forallb (not_char c_dash) w = true.
+
+Lemma classw_all (P : char -> bool) w : (forall x, in_classw x = true -> P x = true) -> forallb in_classw w = true -> forallb P w = true.
+Proof. intros H Hw. apply (forallb_impl in_classw); assumption. Qed.
+
+Lemma strip_classword w : forallb in_classw w = true -> strip w = w.
+Proof.
+  intros H. apply strip_by_id, no_edge_all_not. apply classw_all; [|assumption]. intros x Hx. rewrite (classw_not_space x Hx). reflexivity.
+Qed.
+
+Lemma filter_none {A} (p : A -> bool) l : forallb (fun x => negb (p x)) l = true -> filter p l = [].
+Proof.
+  induction l as [|x r IH]; simpl; [reflexivity|]. intros H. apply andb_true_iff in H. destruct H as [H1 H2].
+  apply negb_true_iff in H1. rewrite H1. auto.
+Qed.
+
+Lemma render_set_class c w : i_class c = None -> forallb in_classw w = true ->
+  render (set_class c w) = render c ++ c_space :: w.
+Proof.
+  intros Hc Hw. destruct c as [p s sl cd po sb ch cl]. simpl in Hc. subst cl.
+  unfold set_class, render, tail_str, number_str, sep_str. simpl. rewrite (strip_classword w Hw).
+  rewrite !app_nil_r. rewrite <- !app_assoc. reflexivity.
+Qed.
+
+Lemma canon_set_class c w : canon c -> classword w -> canon (set_class c w).
+Proof.
+  intros [H1 [H2 [H3 H4]]] [Hn [Hw _]]. unfold canon, set_class. simpl. rewrite (strip_classword w Hw).
+  split; [assumption|]. split; [assumption|]. split; [split; assumption|]. exact H4.
+Qed.
+
+Lemma dash_free_set_class c w : dash_free c -> classword w -> dash_free (set_class c w).
+Proof. intros [H1 _] [_ [Hw Hd]]. unfold dash_free, set_class. simpl. rewrite (strip_classword w Hw). auto. Qed.
+
+Lemma set_class_idem c w : set_class (set_class c w) w = set_class c w.
+Proof. reflexivity. Qed.
+
+Lemma digits_then_class (e : N) (w : list N) : forallb in_classw w = true ->
+  filter is_digit (render_dec e ++ c_space :: w) = render_dec e.
+Proof.
+  intros Hw. rewrite filter_app. rewrite filter_all_true by apply render_dec_digits.
+  assert (Hf : filter is_digit (c_space :: w) = []).
+  { apply filter_none. simpl. apply classw_all; [|assumption]. intros x Hx. rewrite (classw_not_digit x Hx). reflexivity. }
+  unfold char in *. rewrite Hf. apply app_nil_r.
+Qed.
+
+Lemma part_token_range_cls c e w : canon c -> dash_free c -> classword w ->
+  part_token (render c ++ c_dash :: render_dec e ++ c_space :: w) = Ok (c, Some e).
+Proof.
+  intros Hc Hd [Hne [Hw Hwd]]. pose proof (render_no_dash c Hc Hd) as Hn. unfold part_token.
+  set (X := render_dec e ++ c_space :: w).
+  assert (HX : forallb (not_char c_dash) X = true).
+  { unfold X. rewrite forallb_app'. apply andb_true_iff. split.
+    - apply digits_all. intros d H. unfold not_char. rewrite (digit_not_dash d H). reflexivity.
+    - simpl. assumption. }
+  rewrite (split_on_app c_dash _ _ Hn), (split_on_nosep c_dash _ HX), nth_str_0, (strip_render c Hc), (name_roundtrip c Hc). simpl.
+  assert (Hx : existsb (N.eqb c_dash) (render c ++ c_dash :: X) = true).
+  { rewrite existsb_app. simpl. apply orb_true_r. }
+  rewrite Hx.
+  assert (Hst : strip X = X).
+  { apply strip_by_id. split.
+    - unfold X. apply stops_render_dec_app. apply digit_not_space.
+    - unfold X. rewrite rev_app_distr. simpl. destruct (exists_last Hne) as [w' [x E]]. subst w. rewrite rev_app_distr. simpl.
+      rewrite forallb_app' in Hw. apply andb_true_iff in Hw. destruct Hw as [_ Hw]. simpl in Hw. rewrite andb_true_r in Hw.
+      apply classw_not_space. assumption. }
+  rewrite Hst. unfold X. rewrite digits_then_class by assumption.
+  pose proof (render_dec_val e) as Hv. pose proof (render_dec_nonempty e) as Hne'.
+  destruct (render_dec e) as [|d0 dr]; [congruence|]. exact (f_equal (fun v => Ok (c, Some v)) Hv).
+Qed.
+
+Fixpoint app_last (l : list str) (suf : str) : list str :=
+  match l with [] => [] | [x] => [x ++ suf] | x :: r => x :: app_last r suf end.
+
+Lemma join_app_last l suf : l <> [] -> join_comma (app_last l suf) = join_comma l ++ suf.
+Proof.
+  induction l as [|x r IH]; intros Hn; [congruence|]. destruct r as [|y r]; [reflexivity|].
+  change (app_last (x :: y :: r) suf) with (x :: app_last (y :: r) suf).
+  assert (E : exists z r', app_last (y :: r) suf = z :: r') by (destruct r; simpl; eauto).
+  destruct E as [z [r' E]]. rewrite E, join_comma_cons, <- E, IH by discriminate. rewrite join_comma_cons, <- app_assoc. reflexivity.
+Qed.
+
+Lemma Forall_app_last (Q : str -> Prop) l suf :
+  Forall Q l -> (forall x, Q x -> Q (x ++ suf)) -> Forall Q (app_last l suf).
+Proof.
+  intros H Hs. induction H as [|x r Hx Hr IH]; [constructor|]. destruct r as [|y r]; [constructor; auto|].
+  change (app_last (x :: y :: r) suf) with (x :: app_last (y :: r) suf). constructor; assumption.
+Qed.
+
+Lemma split_ws_two a b : a <> [] -> b <> [] ->
+  forallb (fun c => negb (is_space c)) a = true -> forallb (fun c => negb (is_space c)) b = true ->
+  split_ws (a ++ c_space :: b) = [a; b].
+Proof.
+  intros Ha Hb Hna Hnb. unfold split_ws. rewrite split_ws_aux_nospace by assumption. rewrite app_nil_r.
+  cbn [split_ws_aux]. change (is_space c_space) with true. cbv iota.
+  destruct (rev a) as [|x r] eqn:Er.
+  { exfalso. apply Ha. rewrite <- (rev_involutive a), Er. reflexivity. }
+  rewrite <- Er, rev_involutive. f_equal. apply split_ws_nospace; assumption.
+Qed.
+
+(* tokens of the parts when the last part carries the class word *)
+Lemma tokens_with_class base e0 items w :
+  plain_base base -> classword w ->
+  exists toks, map_res part_token (app_last ((render base ++ optdash e0) :: map part_text items) (c_space :: w)) = Ok toks /\
+    (exists t0 r, toks = t0 :: r /\ i_port (fst t0) = i_port base /\ set_class (fst t0) w = set_class base w) /\
+    flat_map (tok_vals A_port) toks = item_vals (i_port base, e0) ++ flat_map item_vals items.
+Proof.
+  intros Hb Hw. pose proof Hb as [Hc [Hd [Hcls _]]]. pose proof Hw as [Hne [Hcw Hdw]].
+  destruct items as [|it0 items].
+  - (* a single part *)
+    cbn [map app_last map_res flat_map]. destruct e0 as [e|]; cbn [optdash].
+    + rewrite <- app_assoc. cbn [app]. rewrite part_token_range_cls by assumption. cbn [bind].
+      eexists. split; [reflexivity|]. split; [eauto|]. cbn [flat_map]. rewrite !app_nil_r. reflexivity.
+    + rewrite app_nil_r, <- (render_set_class base w Hcls Hcw).
+      rewrite part_token_single by (try apply canon_set_class; try apply dash_free_set_class; assumption). cbn [bind].
+      eexists. split; [reflexivity|]. split.
+      * eexists. eexists. split; [reflexivity|]. split; [destruct base; reflexivity|]. apply set_class_idem.
+      * cbn [flat_map]. rewrite !app_nil_r. destruct base; reflexivity.
+  - (* several parts: the class word is attached to the last bare part *)
+    change (app_last ((render base ++ optdash e0) :: map part_text (it0 :: items)) (c_space :: w))
+      with ((render base ++ optdash e0) :: app_last (map part_text (it0 :: items)) (c_space :: w)).
+    cbn [map_res]. rewrite (part_token_first base e0 Hb). cbn [bind].
+    assert (Hrest : exists toks', map_res part_token (app_last (map part_text (it0 :: items)) (c_space :: w)) = Ok toks' /\
+                    flat_map (tok_vals A_port) toks' = flat_map item_vals (it0 :: items)).
+    { clear -Hw Hne Hcw Hdw. revert it0. induction items as [|it1 items IH]; intros it0.
+      - cbn [map app_last map_res]. destruct it0 as [a [e|]]; unfold part_text; cbn [fst snd optdash].
+        + rewrite <- app_assoc. cbn [app]. rewrite <- (bare_render a).
+          rewrite part_token_range_cls by (try apply bare_canon; try apply bare_dash_free; assumption). cbn [bind].
+          eexists. split; reflexivity.
+        + rewrite app_nil_r, <- (bare_render a), <- (render_set_class (bare a) w eq_refl Hcw).
+          rewrite part_token_single by (try apply canon_set_class; try apply dash_free_set_class; try apply bare_canon; try apply bare_dash_free; assumption).
+          cbn [bind]. eexists. split; reflexivity.
+      - change (app_last (map part_text (it0 :: it1 :: items)) (c_space :: w))
+          with (part_text it0 :: app_last (map part_text (it1 :: items)) (c_space :: w)).
+        cbn [map_res]. rewrite part_token_item. cbn [bind]. destruct (IH it1) as [toks' [E1 E2]]. rewrite E1. cbn [bind].
+        eexists. split; [reflexivity|]. simpl. simpl in E2. rewrite E2. reflexivity. }
+    destruct Hrest as [toks' [E1 E2]]. rewrite E1. cbn [bind].
+    eexists. split; [reflexivity|]. split; [eauto|]. simpl. simpl in E2. rewrite E2. reflexivity.
+Qed.
+
+Definition range_text_cls (base : intf) (e0 : option N) (items : list (N * option N)) (w : str) : str :=
+  range_text base e0 items ++ c_space :: w.
+
+(* "<interface>[-e0],<n>[-e],... <classword>" : the same expansion, every member carrying the class word *)
+Lemma range_text_cls_spec base e0 items w :
+  plain_base base -> classword w ->
+  let vals := item_vals (i_port base, e0) ++ flat_map item_vals items in
+  vals <> [] ->
+  exists vs, parse_range (range_text_cls base e0 items w) = Ok (map (member A_port (set_class base w)) vs) /\
+             StronglySorted N.lt vs /\ (forall v, In v vs <-> In v vals).
+Proof.
+  intros Hb Hw vals Hne. pose proof Hb as [Hc [Hd [Hcls [Hsub [Hch Hsp]]]]]. pose proof Hw as [Hwn [Hcw Hdw]].
+  set (parts := (render base ++ optdash e0) :: map part_text items).
+  set (parts' := app_last parts (c_space :: w)).
+  assert (Htext : range_text_cls base e0 items w = join_comma parts').
+  { unfold parts'. rewrite join_app_last by discriminate. reflexivity. }
+  (* comma-free, non-empty parts *)
+  assert (Hparts : Forall (fun p => forallb (not_char c_comma) p = true /\ p <> []) parts).
+  { unfold parts. constructor.
+    - split.
+      + rewrite forallb_app'. apply andb_true_iff. split.
+        * apply plain_render_all; [assumption| |intros d H; unfold not_char; rewrite (digit_not_comma d H); reflexivity|reflexivity].
+          destruct Hc as [Hp _]. apply (forallb_impl in_prefix); [|assumption]. intros x Hx. unfold not_char. rewrite (prefix_not_comma x Hx). reflexivity.
+        * apply optdash_all; [intros d H; unfold not_char; rewrite (digit_not_comma d H); reflexivity|reflexivity].
+      + destruct Hc as [_ [_ [_ Hs]]]. destruct (tail_starts_digit base Hs) as [d0 [t0 [Et _]]]. unfold render. rewrite Et.
+        destruct (i_prefix base); discriminate.
+    - apply Forall_forall. intros p Hp. apply in_map_iff in Hp. destruct Hp as [it [<- _]]. split.
+      + apply part_text_all; [intros d H; unfold not_char; rewrite (digit_not_comma d H); reflexivity|reflexivity].
+      + unfold part_text. apply render_app_nonempty. }
+  assert (Hparts' : Forall (fun p => forallb (not_char c_comma) p = true /\ p <> []) parts').
+  { unfold parts'. apply Forall_app_last; [assumption|]. intros x [H1 H2]. split.
+    - rewrite forallb_app', H1. simpl. apply classw_all; [|assumption]. intros y Hy. unfold not_char. rewrite (classw_not_comma y Hy). reflexivity.
+    - destruct x; discriminate. }
+  assert (Hparts1 : Forall (fun p => forallb (not_char c_comma) p = true) parts').
+  { apply Forall_forall. intros p Hp. rewrite Forall_forall in Hparts'. apply (Hparts' p Hp). }
+  assert (Hnospace : forallb (fun c => negb (is_space c)) (join_comma parts) = true).
+  { assert (Hall : Forall (fun p => forallb (fun c => negb (is_space c)) p = true) parts).
+    { unfold parts. constructor.
+      - rewrite forallb_app'. apply andb_true_iff. split.
+        + apply plain_render_all; [assumption|assumption|intros d H; rewrite (digit_not_space d H); reflexivity|reflexivity].
+        + apply optdash_all; [intros d H; rewrite (digit_not_space d H); reflexivity|reflexivity].
+      - apply Forall_forall. intros p Hp. apply in_map_iff in Hp. destruct Hp as [it [<- _]].
+        apply part_text_all; [intros d H; rewrite (digit_not_space d H); reflexivity|reflexivity]. }
+    clear -Hall. induction parts as [|x r IH]; [reflexivity|]. inversion Hall; subst. destruct r as [|y r]; [assumption|].
+    rewrite join_comma_cons, forallb_app'. apply andb_true_iff. split; [assumption|]. simpl. apply IH. assumption. }
+  assert (Hbody : join_comma parts <> []).
+  { unfold parts. destruct Hc as [_ [_ [_ Hs]]]. destruct (tail_starts_digit base Hs) as [d0 [t0 [Et _]]].
+    destruct (map part_text items); simpl; unfold render; rewrite Et; destruct (i_prefix base); discriminate. }
+  assert (Ejoin : join_comma parts' = join_comma parts ++ c_space :: w).
+  { unfold parts'. apply join_app_last. discriminate. }
+  unfold parse_range. rewrite Htext.
+  rewrite match_nonempty by (rewrite Ejoin; destruct (join_comma parts); [congruence|discriminate]).
+  rewrite (contains_join parts' Hparts').
+  rewrite (split_join parts') by (try assumption; unfold parts', parts; destruct (map part_text items); discriminate).
+  destruct (tokens_with_class base e0 items w Hb Hw) as [toks [Etok [[t0 [r [Et0 [Hport Hset]]]] Hvals]]].
+  fold parts in Etok. fold parts' in Etok. rewrite Etok. cbn [bind]. rewrite Et0. destruct t0 as [b0 x0]. simpl in Hport, Hset.
+  (* the class word of the whole text *)
+  assert (Hrc : range_class (join_comma parts') = Some w).
+  { unfold range_class. rewrite Ejoin, split_ws_two; try assumption.
+    - change (rev [join_comma parts; w]) with [w; join_comma parts]. cbv iota.
+      rewrite filter_none; [reflexivity|]. apply classw_all; [|assumption]. intros y Hy. rewrite (classw_not_digit y Hy). reflexivity.
+    - apply classw_all; [|assumption]. intros y Hy. rewrite (classw_not_space y Hy). reflexivity. }
+  rewrite Hrc, Hset. rewrite <- Et0.
+  assert (Ha : pick_attr (set_class base w) = A_port) by (unfold pick_attr, set_class; simpl; rewrite Hch, Hsub; reflexivity).
+  destruct (range_expand_port (set_class base w) toks Ha) as [vs [H1 [H2 H3]]].
+  - rewrite Et0. simpl. rewrite Hport. destruct base; reflexivity.
+  - rewrite Hvals. exact Hne.
+  - exists vs. split; [assumption|]. split; [assumption|]. intros v. rewrite H3, Hvals. reflexivity.
 Qed.
